@@ -34,7 +34,7 @@ CHECKS = {
         text="Generated strings/bytes (all Unicode, invalid UTF-8, quotes, backslashes) x every quoting style and per-character escape choice, "
              "int/uint in decimal/hex with sign and leading zeros incl. out-of-range neighbours, decimal float texts against a Fraction-rounded "
              "oracle; both runners.",
-        note="Spellings outside the statement's list are not generated (\\u in bytes, surrogates, raw CR, raw literal with backslash before a quote).",
+        note="Spellings outside the statement's list are not asserted here (C04 generates them for totality) (\\u in bytes, surrogates, raw CR, raw literal with backslash before a quote).",
         design_ref="DESIGN.md §4 C07",
     ),
     "C15": dict(
@@ -80,13 +80,13 @@ CHECKS = {
         design_ref="DESIGN.md §4 C13",
     ),
     "C04": dict(
-        technique="fuzzing / property-based testing (Hypothesis): totality oracle (value | CELEvalError | CELParseError with in-text position) over text, token soup, grammar-directed ill-typed programs and the mutated conformance corpus; thorough adds an atheris campaign",
+        technique="fuzzing (Hypothesis; thorough: + coverage-guided atheris/libFuzzer campaign with the oracle inside the target): totality oracle (value | CELEvalError | CELParseError with in-text position) over text, token soup, grammar-directed ill-typed programs and the mutated conformance corpus; thorough adds an atheris campaign",
         category="exploration",
         text="Arbitrary text, token soup and character-mutated corpus expressions into compile(); grammar-directed programs (every operator, member, index, macro, "
              "function on every value kind), the corpus (+ a hand-written edge supplement) verbatim and mutated, into both runners; any exception other than the "
              "library's errors, a parse error without an in-text position, or an error that cannot be rendered is a violation; crashes bucketed by (type, innermost celpy frame) "
              "and localised to the smallest crashing sub-expression.",
-        note="Out of domain: macro with a non-identifier variable, has() of a non-selection, the non-standard reduce()/min() macros.",
+        note="Out of domain: has() of a non-selection. 'Ends' = under 20 s (compile) / 60 s (evaluate) of CPU time for bounded texts, plus a CPU-time ratio test on unterminated literals; thorough adds a coverage-guided campaign (atheris) whose findings are re-run through this check's replay before they count. One recorded finding (nesting deeper than ~65).",
         design_ref="DESIGN.md §4 C04",
     ),
     "C03": dict(
@@ -95,7 +95,7 @@ CHECKS = {
         text="Type-directed and grammar-directed programs x generated activations, every conformance-corpus expression (+ edge supplement) verbatim and with one "
              "mutation (absorbing contexts, operator swap, literal replacement): equal canonical value of the same class skeleton, or an error in both; a crash of "
              "either runner (incl. program()) is a mismatch.",
-        note="Each runner gets its own lark parser; message text of errors not compared; three recorded findings (compiled has() bool, error values used as data, message literals) are excluded by narrow root-cause keys.",
+        note="Each runner gets its own lark parser; message text of errors not compared; also one program object per runner evaluated with a sequence of activations, and dotted / overlapping bindings under packages; recorded findings (compiled has() bool, error values used as data, message literals, null_type(), no compiled min/reduce) are excluded by narrow root-cause keys; thorough adds the coverage-guided campaign.",
         design_ref="DESIGN.md §4 C03",
     ),
     "C06": dict(
@@ -153,7 +153,7 @@ CHECKS = {
         design_ref="DESIGN.md §4 C19",
     ),
     "C20": dict(
-        technique="property-based testing (Hypothesis): differential against the library API for -n / -b / --arg, metamorphic relation (stream vs its one-document runs) for NDJSON",
+        technique="property-based testing (Hypothesis): differential against the library API for -n / -b / --arg, metamorphic relation for NDJSON (stream vs each document alone in a fresh process forked from an import-only CLI zygote), syntax-error positions known by construction",
         category="exploration",
         text="celpy.__main__.main(argv) in-process with replaced stdin/stdout/stderr: -n output equals the encoder's serialisation of the API value, -b statuses 0/1/2, syntax "
              "errors status 1 with the parser's line:column, typed --arg bindings of every CLI type built independently; NDJSON streams of 0-8 documents (objects, erroring, "
@@ -168,16 +168,16 @@ CHECKS = {
         text="Generated histories of {Environment(runner class, package, annotations), compile+program, evaluate, re-evaluate} over pools built to touch shared state; each history "
              "runs in a child forked from an import-only process; each evaluation is compared with the same (configuration, expression, bindings) evaluated alone in a fresh "
              "forked process; caller's bindings unmodified; re-evaluation stable; failing histories minimised by greedy operation removal.",
-        note="lark's LALR analysis is loaded from a per-tree-class cache file in all processes alike (speed-up only); pools are finite (18 environments, 22 expressions, 20 binding sets).",
+        note="lark's LALR analysis is loaded from a per-tree-class cache file in all processes alike (speed-up only); pools are finite (18 environments, 26 expressions, 20 binding sets, 5 host-function configurations incl. list/dict form and a built-in override).",
         design_ref="DESIGN.md §4 C05",
     ),
     "C16": dict(
-        technique="schedule fuzzing: deterministic line-level thread scheduler (sys.settrace baton) with Hypothesis-generated preemption schedules, exhaustive single-preemption enumeration, plus free-running stress",
+        technique="schedule fuzzing: deterministic line-level thread scheduler (sys.settrace baton) with Hypothesis-generated preemption schedules, single preemption at every distinct source line of state-touching functions, double preemption crossed per function (A in, B in, A out, B continues), strided exhaustive enumeration, plus free-running stress",
         category="exploration",
         text="2-4 threads each with its own Environment/program/bindings; exactly one runs at a time and is preempted only at Python line events inside celpy and transpiled code, at "
              "generated step indexes (first preemption aimed at lines of evaluate/transpile/program/parse/result); every thread's outcomes equal its alone run. Thorough: every single "
              "preemption point for five program pairs, <= 5 preemptions, 300 stress iterations.",
-        note="Line granularity (not bytecode), bounded preemptions, library code outside celpy unpreempted; stress is not reproducible and only supplements the scheduler.",
+        note="Line granularity (not bytecode), bounded preemptions, library code outside celpy unpreempted; every run starts from the host's default recursion limit; threads supply their own host functions; stress is not reproducible and only supplements the scheduler.",
         design_ref="DESIGN.md §4 C16",
     ),
 }
